@@ -424,3 +424,105 @@ func VH_C01_ReadSymbolicText() {
 	}
 	vreach("end")
 }
+
+// C01 H5: markup of the written runs. One cue, two lines; the first run of the first line carries any of the 16
+// combinations of bold / italic / underline / font colour, followed by a plain run, a second styled run and a plain
+// second line: what is written is well nested (every tag opened by a run is closed by that run, checked by an
+// independent tag scanner) and the library's reader gives every run exactly its own markup back.
+func VH_C01_WriteMarkup() {
+	m1, m2 := choose(16), choose(16)
+	mk := func(text string, m int) vrun {
+		r := vrun{text: text, b: m&1 != 0, i: m&2 != 0, u: m&4 != 0}
+		if m&8 != 0 {
+			r.color = "#00ff00"
+		}
+		return r
+	}
+	lines := []vtextLine{{runs: []vrun{mk("one", m1), {text: "two"}, mk("three", m2)}}, {runs: []vrun{{text: "four"}}}}
+	s := NewSubtitles()
+	s.Items = append(s.Items, vc01Item(1000000000, 2000000000, lines))
+	var buf bytes.Buffer
+	vassert(s.WriteToSRT(&buf) == nil, "C01 write succeeds")
+	out := buf.Bytes()
+	vreach("written")
+	// independent scanner: inside each text line tags must be balanced per run - after the text of a run and its
+	// closing tags the stack of open tags is empty again
+	p := -1 // the timing line
+	for i := 0; i+4 <= len(out); i++ {
+		if out[i] == '\n' && out[i+1] == '0' && out[i+2] == '0' && out[i+3] == ':' {
+			p = i
+			break
+		}
+	}
+	vassert(p >= 0, "C01 markup: timing line present")
+	if p < 0 {
+		return
+	}
+	p = p + 1 + bytes.IndexByte(out[p+1:], '\n') + 1
+	var stack []string
+	for p < len(out) {
+		if out[p] == '<' {
+			q := bytes.IndexByte(out[p:], '>')
+			vassert(q > 0, "C01 markup: tag terminated")
+			if q <= 0 {
+				return
+			}
+			tag := string(out[p+1 : p+q])
+			if tag[0] == '/' {
+				vassert(len(stack) > 0 && stack[len(stack)-1] == tag[1:], "C01 markup: every closing tag closes the innermost open tag")
+				if len(stack) == 0 {
+					return
+				}
+				stack = stack[:len(stack)-1]
+			} else {
+				name := tag
+				if sp := bytes.IndexByte([]byte(tag), ' '); sp >= 0 {
+					name = tag[:sp]
+				}
+				stack = append(stack, name)
+			}
+			p += q + 1
+			continue
+		}
+		if out[p] == '\n' {
+			vassert(len(stack) == 0, "C01 markup: no tag left open at the end of a line")
+		}
+		p++
+	}
+	vreach("scanned")
+	r, err := ReadFromSRT(bytes.NewReader(out))
+	vassert(err == nil && len(r.Items) == 1 && len(r.Items[0].Lines) == 2, "C01 markup: reads back as one cue of two lines")
+	if err != nil || len(r.Items) != 1 || len(r.Items[0].Lines) != 2 {
+		return
+	}
+	// adjacent runs with the same markup are one run in the format: compare character by character
+	for l := 0; l < 2; l++ {
+		var want, got []vrun
+		for _, w := range lines[l].runs {
+			for k := 0; k < len(w.text); k++ {
+				want = append(want, vrun{text: w.text[k : k+1], b: w.b, i: w.i, u: w.u, color: w.color})
+			}
+		}
+		for _, li := range r.Items[0].Lines[l].Items {
+			g := vrun{}
+			if sa := li.InlineStyle; sa != nil {
+				g.b, g.i, g.u = sa.SRTBold, sa.SRTItalics, sa.SRTUnderline
+				if sa.SRTColor != nil {
+					g.color = *sa.SRTColor
+				}
+			}
+			for k := 0; k < len(li.Text); k++ {
+				c := g
+				c.text = li.Text[k : k+1]
+				got = append(got, c)
+			}
+		}
+		vassert(len(got) == len(want), "C01 markup: same text read back")
+		for k := range want {
+			if k < len(got) {
+				vassert(got[k] == want[k], "C01 markup: every character reads back with exactly the markup of its run")
+			}
+		}
+	}
+	vreach("end")
+}
